@@ -260,7 +260,8 @@ def outputs_monitor(op, op_line, out_line, r, st):
     view = {'stats': {'status': last['status']}, 'events': [],
             'out': {'untouched': False, 'x': r['x'], 'y': r['y'], 'errz': L['errz']},
             'cbs': [{'x': L['x_cb']}]}
-    m = c03.monitor(op2.line(), 'S view', st, parse=lambda line: view)
+    import loopmon as LM
+    m = LM.own_findings_only(c03.monitor(op2.line(), 'S view', st, parse=lambda line: view), 'C19', bump)
     if m:
         return f'outputs of the ALM solve (status {r["status"]}): {m if isinstance(m, str) else m[0]}'
     bump('c03_relations_checked')
